@@ -57,6 +57,7 @@ PFX_B = b"\x00\x02" + b"B" * 20
 PFX_P = b"\x00\x02" + b"P" * 20
 PKT_A = PFX_A + b"\x01a"
 PKT_P = PFX_P + b"\x01p"
+PKT_B = PFX_B + b"\x01b"
 EXIT_AD, BTEXIT_AD, RELAY_AD = 50, 51, 60      # pool peers: address ids (flags when they are candidates)
 POOL = {50: [4], 51: [2], 52: [4, 2], 53: [], 60: [1], 61: [1, 2]}
 
@@ -324,10 +325,18 @@ class Node:
             # learn the packets the overlays hand to TunnelEndpoint.send
             ep_send = self.ep.send
 
+            nest = [0]
+
             def spy(address, packet):
-                if not self.depth:
+                # only the outermost call is the overlay's submission; a send() that re-enters itself (or is
+                # reached from below send_data) is the endpoint's own business
+                if not self.depth and not nest[0]:
                     sends.append((id_of(address), bytes(packet)))
-                return ep_send(address, packet)
+                nest[0] += 1
+                try:
+                    return ep_send(address, packet)
+                finally:
+                    nest[0] -= 1
             self.ep.send = spy
         try:
             for op in ops:
@@ -618,6 +627,25 @@ class Oracle:
                     self.bad("tunnel/cell-wrong-target", "step %d: cell sent to %s" % (i, addr))
                 if e[5] and len(e[5]) >= 8 and e[5] in pkt:
                     self.bad("tunnel/cell-plaintext", "step %d: the packet appears unencrypted in the cell" % i)
+        # --- a packet that was submitted while its prefix was anonymized (it is waiting in the queue) must never
+        #     reach the raw socket, whatever the switches say by the time it leaves the queue
+        waiting = list(q0)
+        own = send_args(st) if k in ("send", "osend") else None
+        own_used = False
+        raws_all, raws = raws, []          # below, `raws` are those not accounted for as waiting packets
+        for e in raws_all:
+            x = (e[1], e[2])
+            if own is not None and x == own and not own_used:
+                own_used = True           # the packet being submitted now: judged below
+                raws.append(e)
+                continue
+            if x not in waiting:
+                raws.append(e)
+            else:
+                waiting.remove(x)
+                self.bad("anon/queued-packet-raw", "step %d (%s): packet %s, submitted while its prefix was anonymized and waiting in "
+                         "the queue, was handed to the raw socket (to %s)%s" % (
+                             i, k, e[2].hex(), e[1], "" if self.on.get(e[2][:22], False) else " after its anonymity was switched off"))
         # --- sends
         if k in ("send", "osend"):
             if k == "osend":
@@ -818,7 +846,11 @@ def families(quick):
           "alpha": [("send", 7, PKT_A, True, EXIT_H), ("send", 8, PKT_P, False, None), ("addhop", 0, EXIT_AD, [4]),
                     ("close", 0), ("attachd",), ("detach",), ("setanon", PFX_A, True), ("setanon", PFX_A, False)],
           "depth": 5, "split": 1}
-    return [fa, fb, fc, fd]
+    fe = {"name": "E/two-anonymized-prefixes", "pre": [("setanon", PFX_A, True), ("setanon", PFX_B, True), ("attach", 1)],
+          "alpha": [("send", 7, PKT_A, True, EXIT_H), ("send", 9, PKT_B, True, EXIT_H), ("addhop", 0, EXIT_AD, [4]),
+                    ("toggle", PFX_A), ("toggle", PFX_B), ("close", 0), ("remove", 0)],
+          "depth": 5 if quick else 7, "split": 1 if quick else 2}
+    return [fa, fb, fc, fd, fe]
 
 
 # ---------------------------------------------------------------------------- generated histories
@@ -898,7 +930,13 @@ def gen_scenario(r, n):
     random other operations interleaved"""
     h = r.choice([1, 1, 2, 3])
     ops = [("setanon", PFX_A, True), ("attach", h)]
+    two = r.random() < 0.5            # a second anonymized overlay shares the endpoint (and its queue)
+    if two:
+        ops.insert(r.randrange(3), ("setanon", PFX_B, True))
     k = 0
+
+    def anon_pfx():
+        return r.choice([PFX_A, PFX_B]) if two else PFX_A
 
     def noise():
         if r.random() < 0.2:
@@ -906,7 +944,26 @@ def gen_scenario(r, n):
 
     alive = 0       # circuits in the dict (approximately: noise may add / remove some)
     for _ in range(n):
-        phase = r.choices(["build", "use", "close", "remove", "plain", "switch"], [4, 6, 1, 1, 1, 1])[0]
+        phase = r.choices(["build", "use", "close", "remove", "plain", "switch", "off-while-waiting"], [4, 6, 1, 1, 1, 1, 1.5])[0]
+        if phase == "off-while-waiting":
+            # packets wait (no usable circuit: the first one is closed / removed), their overlay's anonymity is switched
+            # off, a circuit becomes ready, somebody else's anonymized packet triggers the flush
+            pfx = anon_pfx()
+            ops.append(r.choice([("close", 0), ("remove", 0), ("remove", -1)]))
+            for _ in range(r.choice([1, 2, 3])):
+                k += 1
+                ops.append(("send", r.randrange(1, 40), pfx + b"\x06" + k.to_bytes(2, "big"), True))
+                noise()
+            ops.append(r.choice([("toggle", pfx), ("setanon", pfx, False)]))
+            for _ in range(h - 1):
+                ops.append(("addhop", -1, r.choice([60, 61]), [1]))
+            ops.append(("addhop", -1, r.choice([50, 52]), [4]))
+            k += 1
+            other = PFX_B if pfx == PFX_A else PFX_A
+            ops.append(("setanon", other, True))
+            ops.append(("send", r.randrange(1, 40), other + b"\x07" + k.to_bytes(2, "big"), True))
+            ops.append(("setanon", pfx, True))
+            continue
         if phase == "build":
             ops.append(("send", r.randrange(1, 40), PFX_A + b"\x04" + k.to_bytes(2, "big"), True))
             j = r.choice([-1, -1, -1, 0])
@@ -918,7 +975,7 @@ def gen_scenario(r, n):
         elif phase == "use":
             for _ in range(r.choice([1, 2, 4])):
                 k += 1
-                ops.append(("send", r.randrange(1, 40), PFX_A + b"\x02" + k.to_bytes(2, "big"), r.random() < 0.5))
+                ops.append(("send", r.randrange(1, 40), anon_pfx() + b"\x02" + k.to_bytes(2, "big"), r.random() < 0.5))
         elif phase == "close":
             ops.append(("close", r.choice([0, 0, -1])))
         elif phase == "remove":
@@ -1040,11 +1097,32 @@ def run_notify_impl(listeners, from_tunnel, open_=True):
 
 
 # ---------------------------------------------------------------------------- shrinking a failing history
+def valid_history(ops, full):
+    """histories the harness can execute meaningfully: an overlay sends only after it was launched; with real
+    construction (full) the tunnel community exists only after its launch"""
+    novl, tc = 0, not full
+    for op in ops:
+        k = op[0]
+        if k == "launch":
+            novl += 1
+        elif k == "osend" and op[1] >= novl:
+            return False
+        elif k == "launchtunnel":
+            if tc:
+                return False
+            tc = True
+        elif k in ("attach", "attachd", "newcirc", "addhop", "close", "remove") and not tc:
+            return False
+    return True
+
+
 def shrink(ops, full, key, budget_s=25.0):
     """smallest history found (within the time budget) on which the oracle still reports `key`; -> (ops, what)"""
     t_end = time.time() + budget_s
 
     def fails(o):
+        if not valid_history(o, full):
+            return None
         try:
             steps, cidx = run_ops(o, full)
         except Exception:  # noqa
@@ -1082,6 +1160,23 @@ def shrink(ops, full, key, budget_s=25.0):
         if chunk == 1 and not progress:
             break
         chunk = chunk // 2 if chunk > 1 else (1 if progress else 0)
+    # operations that only cancel in pairs (toggle / toggle, attach / detach): try every pair, then singles again
+    progress = True
+    while progress and len(cur) <= 24 and time.time() < t_end:
+        progress = False
+        for i, j in itertools.combinations(range(len(cur)), 2):
+            if time.time() >= t_end:
+                break
+            cand = [o for n, o in enumerate(cur) if n not in (i, j)]
+            w = fails(cand) if cand else None
+            if w is not None:
+                cur, what, progress = cand, w, True
+                break
+        for i in range(len(cur) - 1, -1, -1):
+            cand = cur[:i] + cur[i + 1:]
+            w = fails(cand) if cand and time.time() < t_end else None
+            if w is not None:
+                cur, what, progress = cand, w, True
     return cur, what
 
 
